@@ -39,6 +39,8 @@ CONSTANTS Maps,        \* subset of {"file", "memfd"}
           Strict,      \* TRUE: no exemption for the known one-sided-success classes
           RefuseMemfdDowngrade  \* FALSE: the tree as it is (a memfd client answered "version 2" goes on with protocol 2);
                                 \* TRUE: the proposed repair (it fails instead), see checks/handshake_NOTES.md
+CONSTANT TimeoutStopsGoroutine  \* FALSE: the tree as it is (initProtocol's goroutine outlives the time-out arm);
+                                \* TRUE: the proposed repair (shutdown of connFd + wait for the goroutine)
 
 VARIABLES cfg, pc, res, open, ver, led, mem, io, chan, wire, zombie
 vars == <<cfg, pc, res, open, ver, led, mem, io, chan, wire, zombie>>
@@ -167,9 +169,12 @@ Timeout(x) == /\ res[x] = "run" /\ Waiting(x) /\ ~Avail(x) /\ open[O(x)] /\ Peer
               /\ res' = [res EXCEPT ![x] = "err_timeout"]
               /\ led' = [led EXCEPT ![x] = {}]             \* newSession's cleanup of what exists at this moment
               /\ mem' = [mem EXCEPT ![x] = "none"]
-              /\ zombie' = [zombie EXCEPT ![x] = TRUE]     \* the goroutine stays in its read on connFd
+              /\ IF TimeoutStopsGoroutine
+                   THEN /\ open' = [open EXCEPT ![x] = FALSE] /\ Goto(x, "end") /\ UNCHANGED zombie
+                   ELSE /\ zombie' = [zombie EXCEPT ![x] = TRUE]     \* the goroutine stays in its read on connFd
+                        /\ UNCHANGED <<pc, open>>
               /\ wire' = Append(wire, <<x, "TIMEOUT", 0, "timeout">>)
-              /\ UNCHANGED <<cfg, pc, open, ver, io, chan>>
+              /\ UNCHANGED <<cfg, ver, io, chan>>
 
 Finish(x) == /\ pc[x] = "ok" /\ Active(x)
              /\ IF zombie[x]
